@@ -1,14 +1,25 @@
 /-
-  C07 — Parsing does not depend on how input bytes arrive.   (work in progress: skeleton)
+  C07 — Parsing does not depend on how input bytes arrive.
+
+  The byte source of the lexer (Model/L2ByteSrc.lean, tied to syntax/lexer.go on every run) is
+  run over *schedules*: the chunk lengths an io.Reader may legally return, zero-length reads
+  included, `io.EOF` with or after the last bytes.  The lexer/parser above it is a client
+  program `Prog α` over the primitives.  `specRun` runs the same program on the unchunked
+  machine of Model/C07.lean, which has no buffer and no schedule.
+
+  Proved: every client that stays inside the stated protocol (`InProtocol`, computed on the
+  unchunked machine alone) gets the same results from the chunked byte source under every
+  schedule with a separate EOF read, and no index panic.  Refuted on the model (and replayed on
+  the Go code by the harness): the statement without the protocol.
 -/
-import ShVerif.Model.C07
+import ShVerif.Proofs.C07Client
 import ShVerif.Gen.C07
 namespace ShVerif.Props.C07
 open ShVerif ShVerif.L2 ShVerif.C07
 
 /-! ## parser_is_client — table obligation over the regenerated selector-use facts -/
 
-/-- the functions of package syntax that the byte-source model covers, per field of Parser -/
+/-- the methods of syntax.Parser that the byte-source model covers, per field -/
 def allowed : List (String × List String) := [
   ("bs",      ["errPass", "fill", "newLit", "next", "peek", "peekTwo", "reset", "rune", "zshNumRange"]),
   ("bsp",     ["errPass", "fill", "newLit", "next", "nextPos", "peek", "peekTwo", "reset", "rune", "zshNumRange"]),
@@ -28,6 +39,158 @@ def clientOK (acc : List (String × List String)) : Bool :=
     | some ok => subsetOf fns ok
     | none => false
 
+/-- `p.bs`, `p.bsp`, `p.readBuf`, `p.src`, `p.readErr`, `p.readEOF`, `p.offs` are mentioned only
+    inside the modelled primitives (and the entry points that set `p.src`); `p.litBs` only inside
+    the functions whose accesses are the `litGet`/`litAppend`/`litDrop`/`newLit`/`endLit` client
+    operations. -/
 theorem parser_is_client : clientOK Gen.C07.byteAccess = true := by decide +kernel
+
+/-! ## the simulation relation -/
+
+/-- Two states of the chunked byte source (different schedules, different buffers) that present
+    the same logical state: same remaining input, same consumed offset / line / column, same
+    `r, w`, same literal buffer, same flags. -/
+def Sim (s₁ s₂ : St) : Prop := ∃ a, R s₁ a ∧ R s₂ a
+
+theorem sim_init (input : List Byte) (sc₁ sc₂ : List Nat) (stop : List Byte) :
+    Sim (init input sc₁ false stop) (init input sc₂ false stop) :=
+  ⟨LSt.init input stop, R_init _ _ _, R_init _ _ _⟩
+
+/-- observable outcome of a run: the result, or `none` for a Go panic / hang -/
+def outcome {α : Type} (x : M (α × St)) : Option α :=
+  match x with
+  | .ok (v, _) => some v
+  | .error _ => none
+
+/-! ## primitives -/
+
+/-- full statement (false today, see the counter-examples below): every primitive maps
+    `Sim`-related states to equal results and `Sim`-related states, for all schedules -/
+def prim_sched_indep_statement : Prop :=
+  ∀ (s₁ s₂ : St), Sim s₁ s₂ →
+    (outcome s₁.rune = outcome s₂.rune) ∧ (outcome s₁.peek = outcome s₂.peek) ∧
+    (outcome (s₁.peekTwo.map fun x => ((x.1, x.2.1), x.2.2))
+      = outcome (s₂.peekTwo.map fun x => ((x.1, x.2.1), x.2.2))) ∧
+    (outcome s₁.zshNum = outcome s₂.zshNum) ∧
+    (∀ r, outcome (s₁.stopAt r) = outcome (s₂.stopAt r))
+
+/-- `peek` never depends on the schedule. -/
+theorem peek_sched_indep {s₁ s₂ : St} (h : Sim s₁ s₂) :
+    ∃ v s₁' s₂', s₁.peek = .ok (v, s₁') ∧ s₂.peek = .ok (v, s₂') ∧ Sim s₁' s₂' := by
+  obtain ⟨a, h1, h2⟩ := h
+  obtain ⟨s1', e1, r1⟩ := peek_refines h1
+  obtain ⟨s2', e2, r2⟩ := peek_refines h2
+  exact ⟨_, s1', s2', e1, e2, _, r1, r2⟩
+
+/-- `rune` does not depend on the schedule as long as its backquote test is made with a byte
+    certainly in the buffer (`ok` of the unchunked run). -/
+theorem rune_sched_indep_partial {s₁ s₂ : St} {a : LSt} (h1 : R s₁ a) (h2 : R s₂ a)
+    (hok : a.rune.2.ok = true) :
+    ∃ v s₁' s₂', s₁.rune = .ok (v, s₁') ∧ s₂.rune = .ok (v, s₂') ∧ Sim s₁' s₂' := by
+  obtain ⟨s1', e1, r1⟩ := rune_refines h1 hok
+  obtain ⟨s2', e2, r2⟩ := rune_refines h2 hok
+  exact ⟨_, s1', s2', e1, e2, _, r1, r2⟩
+
+/-- `peekTwo` does not depend on the schedule when a byte is certainly buffered (or nothing is
+    left): in particular right after `peek`. -/
+theorem peekTwo_sched_indep_partial {s₁ s₂ : St} {a : LSt} (h1 : R s₁ a) (h2 : R s₂ a)
+    (hok : a.peekTwo.2.2.ok = true) :
+    ∃ v w s₁' s₂', s₁.peekTwo = .ok (v, w, s₁') ∧ s₂.peekTwo = .ok (v, w, s₂') ∧ Sim s₁' s₂' := by
+  obtain ⟨s1', e1, r1⟩ := peekTwo_refines h1 hok
+  obtain ⟨s2', e2, r2⟩ := peekTwo_refines h2 hok
+  exact ⟨_, _, s1', s2', e1, e2, _, r1, r2⟩
+
+/-! ## client programs -/
+
+/-- full statement (false today): any client, any two schedules of the same bytes — EOF with or
+    after the last data — same result -/
+def client_sched_indep_statement : Prop :=
+  ∀ (α : Type) (p : Prog α) (input stop : List Byte) (sc₁ sc₂ : List Nat) (e₁ e₂ : Bool),
+    outcome (p.run (init input sc₁ e₁ stop)) = outcome (p.run (init input sc₂ e₂ stop))
+
+/-- **The chunked byte source refines the unchunked one**: inside the protocol, under every
+    schedule, a client gets exactly the results of the schedule-free machine. -/
+theorem client_refines_spec {α : Type} (p : Prog α) (input stop : List Byte) (sc : List Nat)
+    (hp : InProtocol p input stop) :
+    ∃ s', p.run (init input sc false stop) = .ok ((specRun p (LSt.init input stop)).1, s') := by
+  obtain ⟨s', h, _⟩ := client_refines p (R_init input sc stop) hp
+  exact ⟨s', h⟩
+
+/-- **Schedule independence of client programs** (the property, on the byte layer): inside the
+    protocol, any two schedules of the same bytes give the same result. -/
+theorem client_sched_indep_partial {α : Type} (p : Prog α) (input stop : List Byte)
+    (sc₁ sc₂ : List Nat) (hp : InProtocol p input stop) :
+    outcome (p.run (init input sc₁ false stop)) = outcome (p.run (init input sc₂ false stop)) := by
+  obtain ⟨s1, h1⟩ := client_refines_spec p input stop sc₁ hp
+  obtain ⟨s2, h2⟩ := client_refines_spec p input stop sc₂ hp
+  rw [h1, h2]; rfl
+
+/-- C06 on the byte layer: inside the protocol no primitive panics (index / slice bounds), hangs
+    in `fill`, or exhausts the model's recursion budget. -/
+theorem bytesrc_no_panic {α : Type} (p : Prog α) (input stop : List Byte) (sc : List Nat)
+    (hp : InProtocol p input stop) : ∀ f, p.run (init input sc false stop) ≠ .error f := by
+  obtain ⟨s', h⟩ := client_refines_spec p input stop sc hp
+  intro f hf
+  rw [h] at hf
+  cases hf
+
+/-! ## counter-examples: the statements without the protocol are false (each is replayed on the
+    real parser by the harness, corpus/C07-known.txt) -/
+
+/-- `r := rune(); zshNumRange()` -/
+def pZsh : Prog Bool := .rune fun _ => .zshNum fun b => .ret b
+/-- `peekTwo()` with nothing buffered -/
+def pPeekTwo : Prog (Nat × Nat) := .peekTwo fun x y => .ret (x, y)
+/-- `r := rune(); stop-word test for r` -/
+def pStop : Prog Bool := .rune fun r => .stopAt r fun b => .ret b
+/-- inside one level of backquotes: third rune -/
+def pBquote : Prog Nat := .setBquotes 1 0 (.rune fun _ => .rune fun _ => .rune fun r => .ret r)
+/-- `rune(); rune(); nextPos()` : the offset of the end of input -/
+def pEofPos : Prog Int := .rune fun _ => .rune fun _ => .pos fun o _ _ => .ret o
+
+/-- C07-zshnumrange: `<->` all at once vs `<-` + `>` -/
+theorem zshNum_sched_dep :
+    outcome (pZsh.run (init [60, 45, 62] [] false)) = some true ∧
+    outcome (pZsh.run (init [60, 45, 62] [2] false)) = some false := by decide +kernel
+
+/-- C07-peektwo-single-fill: `ab` all at once vs `a` + `b` -/
+theorem peekTwo_sched_dep :
+    outcome (pPeekTwo.run (init [97, 98] [] false)) = some (97, 98) ∧
+    outcome (pPeekTwo.run (init [97, 98] [1] false)) = some (97, 128) := by decide +kernel
+
+/-- C07-stopat-no-lookahead: stop word `$$`, input `$$` all at once vs `$` + `$` -/
+theorem stopAt_sched_dep :
+    outcome (pStop.run (init [36, 36] [] false [36, 36])) = some true ∧
+    outcome (pStop.run (init [36, 36] [1] false [36, 36])) = some false := by decide +kernel
+
+/-- C07-bquote-backslash-lookahead: five backslashes and `$` inside backquotes, all at once vs
+    split before the `$` -/
+theorem rune_bquote_sched_dep :
+    outcome (pBquote.run (init [92, 92, 92, 92, 92, 36] [] false)) = some 36 ∧
+    outcome (pBquote.run (init [92, 92, 92, 92, 92, 36] [5] false)) = some 92 := by decide +kernel
+
+/-- C07-eof-with-data: `a`; EOF by a separate read vs together with the byte -/
+theorem eofWith_pos_dep :
+    outcome (pEofPos.run (init [97] [] false)) = some 1 ∧
+    outcome (pEofPos.run (init [97] [] true)) = some 0 := by decide +kernel
+
+theorem client_sched_indep_fails : ¬ client_sched_indep_statement := by
+  intro h
+  have := h Bool pZsh [60, 45, 62] [] [] [2] false false
+  rw [zshNum_sched_dep.1, zshNum_sched_dep.2] at this
+  cases this
+
+/-! ## non-vacuity: the protocol is satisfiable by programs that use every lookahead primitive -/
+
+/-- `rune; peek; peekTwo; rune; newLit(r); rune; endLit; nextPos` -/
+def pDemo : Prog (Nat × Nat × List Byte × Int) :=
+  .rune fun _ => .peek fun _ => .peekTwo fun _ y => .rune fun r => .newLit r (.rune fun _ =>
+    .endLit fun l => .pos fun o _ _ => .ret (r, y, l, o))
+
+example : InProtocol pDemo [92, 10, 195, 169, 120, 0, 121] [] := by
+  unfold InProtocol; decide +kernel
+
+example : (specRun pDemo (LSt.init [92, 10, 195, 169, 120, 0, 121] [])).1 = (233, 169, [195, 169], 4) := by
+  decide +kernel
 
 end ShVerif.Props.C07
